@@ -65,7 +65,7 @@ type concWorker struct {
 func drawProgram(c *Chooser, n int, codecHeavy bool) []concOp {
 	ops := make([]concOp, n)
 	for i := range ops {
-		k := c.Pick("cop", 4, 2, 1, 3, 3, 6, 5, 1, 4, 2, 2, 2)
+		k := c.Pick("cop", 4, 2, 3, 3, 3, 6, 5, 1, 4, 2, 3, 2)
 		ops[i] = concOp{kind: k, seed: c.U64("opseed"), mode: c.Intn("cmode", 4)}
 		if codecHeavy && i > 0 {
 			// everybody is inside the compressing Serialize / Deserialize at about the same time: as many simultaneous
@@ -136,6 +136,10 @@ func (w *concWorker) step(i int) uint64 {
 		if w.obj != nil && w.obj.pj != nil && c.Intn("reuse", 3) == 0 {
 			reuse = w.obj.pj
 			w.obj = nil
+		}
+		if w.dst != nil && c.Intn("reusefailed", 2) == 0 {
+			// the object a failed call of this worker left behind is the caller's again: it goes on being used
+			reuse, w.dst = w.dst, nil
 		}
 		err := safely(func() error {
 			if cfg.ND {
@@ -353,7 +357,19 @@ func (w *concWorker) step(i int) uint64 {
 		// this worker's own blob with a damaged byte inside a block payload: an error (or any result) is fine for the
 		// worker itself - what matters is that nobody else is affected
 		bad := append([]byte(nil), w.blob.b...)
-		if fr, err := parseFraming(bad); err == nil {
+		if c.Intn("dmgforeign", 2) == 0 {
+			// the damaged blob holds *another* document (long strings, compressed), damaged behind its message block: what a
+			// decompressor of the failed call writes late is then different from what the retry below puts there
+			d2 := GenDoc(c, DocSpec{Family: FamStrings, Target: 3000 + c.Intn("dmgsz", 60000), WS: 0})
+			if p2, err := simdjson.Parse(append([]byte(nil), d2.B...), nil); err == nil {
+				s2 := simdjson.NewSerializer()
+				s2.CompressMode(simdjson.CompressMode(1 + c.Intn("dmgmode", 3)))
+				bad = s2.Serialize(nil, *p2)
+			}
+		}
+		if fr, err := parseFraming(bad); err == nil && c.Intn("dmgtype", 2) == 0 && fr.sec[2].typeOff >= 0 && fr.sec[3].typeOff >= 0 {
+			bad[fr.sec[2+c.Intn("dmgtypesec", 2)].typeOff] = 9 // unknown block type behind the message block
+		} else if fr, err := parseFraming(bad); err == nil {
 			sec := 1 + c.Intn("dsec", 3)
 			if fr.sec[sec].typeOff >= 0 && fr.sec[sec].payLen > 0 {
 				bad[fr.sec[sec].payOff+c.Intn("dpos", fr.sec[sec].payLen)] ^= byte(1 + c.Intn("dbit", 255))
